@@ -140,7 +140,9 @@ Print Assumptions C17_salt_separation_reduction.
      either an Extract collision: HMAC agrees on two (key, message) pairs whose NORMALISED keys or
             messages differ (by C17_hmac_collision_is_hash_collision: a collision of the hash itself),
      or     a collision of HMAC truncated to n = min(key length, HashLen) > 0 bytes on salt || 0x01
-            under two keys PRK, PRK' whose normalisations differ. *)
+            under two keys PRK, PRK' whose normalisations differ.
+   The premise excludes normalised-EQUAL salts; nothing hides there: C17_prf_key_separation_exhaustive
+   splits them into the RFC identities and a located hash collision (two long salts, same hash). *)
 Theorem C17_prf_key_separation_reduction :
   forall (Hash : hash_alg -> bytes -> bytes), (forall a x, length (Hash a x) = digest_size a) ->
   forall edpub k k' id id' salt dk dk',
@@ -165,6 +167,73 @@ Theorem C17_prf_key_separation_reduction :
       firstn n (hmac H B prk (salt ++ [1])) = firstn n (hmac H B prk' (salt ++ [1])))).
 Proof. exact prf_key_separation_reduction_norm. Qed.
 Print Assumptions C17_prf_key_separation_reduction.
+
+(* WHEN ARE TWO BYTE STRINGS THE SAME HMAC KEY?  Exactly in these cases (hash of output length
+   HashLen <= B): both within the block and equal up to trailing zero padding; one longer than the
+   block and the other equal to its hash up to zero padding (both identities of RFC 2104); or both
+   longer than the block with the same hash -- for different strings a located collision of the hash. *)
+Theorem C17_hmac_key_equal_cases :
+  forall (H : bytes -> bytes) (B HashLen : nat),
+    (forall x, length (H x) = HashLen) -> (HashLen <= B)%nat ->
+    forall k k',
+      hmac_key H B k = hmac_key H B k' <->
+      ((length k <= B)%nat /\ (length k' <= B)%nat /\ pad_twins k k') \/
+      ((B < length k)%nat /\ (length k' <= B)%nat /\ pad_twins (H k) k') \/
+      ((length k <= B)%nat /\ (B < length k')%nat /\ pad_twins k (H k')) \/
+      ((B < length k)%nat /\ (B < length k')%nat /\ H k = H k').
+Proof. exact hmac_key_eq_cases. Qed.
+Print Assumptions C17_hmac_key_equal_cases.
+
+(* EXHAUSTIVE PRF-key separation: the premise "normalised keys differ" of the reduction above hides
+   nothing.  Two LITERALLY different PRF keys (same hash, same derived type) that derive the same
+   material of positive length for one caller salt fall in exactly one of
+     (I)   same key bytes, salts that are the same HMAC key by an RFC identity (zero padding within
+           the block incl. absent = HashLen zeros; a salt longer than the block and its hash) -- the
+           refuted class: by C17_norm_equal_salts_derive_equal such keys derive equal keys for EVERY
+           caller salt, no event;
+     (II)  same key bytes, two different salts longer than the block with the same hash: a located
+           COLLISION OF THE HASH at (salt, salt') -- an event;
+     (III) normalised-different: the reduction events (Extract collision on pairs whose normalised
+           keys or messages differ, or truncated HMAC collision under PRKs of different normalisations). *)
+Theorem C17_prf_key_separation_exhaustive :
+  forall (Hash : hash_alg -> bytes -> bytes), (forall a x, length (Hash a x) = digest_size a) ->
+  forall edpub k k' id id' salt dk dk',
+    k_hash k = k_hash k' -> k_type k = k_type k' ->
+    (k_salt k, k_ikm k) <> (k_salt k', k_ikm k') ->
+    (0 < consumption (k_type k))%nat ->
+    derive_key (std_hmac Hash) edpub k id salt = Some dk ->
+    derive_key (std_hmac Hash) edpub k' id' salt = Some dk' ->
+    r_material dk = r_material dk' ->
+    let h := k_hash k in
+    let H := Hash (alg_of h) in let B := block_size (alg_of h) in
+    let s := k_salt k in let s' := k_salt k' in
+    let prk := hmac H B (eff_salt h s) (k_ikm k) in
+    let prk' := hmac H B (eff_salt h s') (k_ikm k') in
+    let n := Nat.min (consumption (k_type k)) (hash_len h) in
+    (k_ikm k = k_ikm k' /\ s <> s' /\
+       (((length s <= B)%nat /\ (length s' <= B)%nat /\ pad_twins s s') \/
+        ((B < length s)%nat /\ (length s' <= B)%nat /\ pad_twins (H s) s') \/
+        ((length s <= B)%nat /\ (B < length s')%nat /\ pad_twins s (H s')))) \/
+    (k_ikm k = k_ikm k' /\ (B < length s)%nat /\ (B < length s')%nat /\ s <> s' /\ H s = H s') \/
+    ((0 < n <= hash_len h)%nat /\
+     (((hmac_key H B s <> hmac_key H B s' \/ k_ikm k <> k_ikm k') /\ length prk = hash_len h /\ prk = prk')
+      \/
+      (hmac_key H B prk <> hmac_key H B prk' /\
+       length (firstn n (hmac H B prk (salt ++ [1]))) = n /\
+       firstn n (hmac H B prk (salt ++ [1])) = firstn n (hmac H B prk' (salt ++ [1]))))).
+Proof. exact prf_key_separation_exhaustive. Qed.
+Print Assumptions C17_prf_key_separation_exhaustive.
+
+(* class (I) really is an identity: the same key bytes and the same NORMALISED salt give the same
+   derived key for every caller salt, type and id (general form of the two refuted theorems below) *)
+Theorem C17_norm_equal_salts_derive_equal :
+  forall (Hash : hash_alg -> bytes -> bytes) edpub h ikm s s' t v id salt,
+    hmac_key (Hash (alg_of h)) (block_size (alg_of h)) s
+      = hmac_key (Hash (alg_of h)) (block_size (alg_of h)) s' ->
+    derive_key (std_hmac Hash) edpub (mkDKey h ikm s t v) id salt
+    = derive_key (std_hmac Hash) edpub (mkDKey h ikm s' t v) id salt.
+Proof. exact norm_equal_salts_derive_equal. Qed.
+Print Assumptions C17_norm_equal_salts_derive_equal.
 
 (* the Extract event above is a collision of the HASH on two different, exhibited inputs: the outer
    inputs (K0 xor opad) || H(inner), or -- with equal normalised keys -- the inner inputs (K0 xor ipad) || m *)
@@ -352,6 +421,23 @@ Proof.
   cbv zeta. split.
   - intros h a b. rewrite firstn_length, app_length, zeros_length. lia.
   - intros prk E. vm_compute in E. discriminate.
+Qed.
+
+(* case (II) of the exhaustive theorem is inhabited and is a real collision: with a constant hash two
+   different 65-byte salts (longer than the 64-byte block) hash alike and derive the same key *)
+Example C17_exhaustive_case_II_inhabited :
+  let Hash := fun a (_ : bytes) => zeros (digest_size a) in
+  let edpub := fun b : bytes => b in
+  let k := mkDKey SHA256 (repeat 7 32) (repeat 1 65) (DAesGcm 16) VTink in
+  let k' := mkDKey SHA256 (repeat 7 32) (repeat 2 65) (DAesGcm 16) VTink in
+  (k_salt k, k_ikm k) <> (k_salt k', k_ikm k') /\
+  (64 < length (k_salt k))%nat /\ (64 < length (k_salt k'))%nat /\
+  Hash Hmac.SHA256 (k_salt k) = Hash Hmac.SHA256 (k_salt k') /\
+  exists dk dk', derive_key (std_hmac Hash) edpub k 5 [1] = Some dk /\
+                 derive_key (std_hmac Hash) edpub k' 5 [1] = Some dk' /\ r_material dk = r_material dk'.
+Proof.
+  cbv zeta. split; [intros E; inversion E|]. split; [cbn; lia|]. split; [cbn; lia|]. split; [reflexivity|].
+  do 2 eexists. split; [vm_compute; reflexivity|]. split; [vm_compute; reflexivity|]. reflexivity.
 Qed.
 
 Example C17_std_hmac_length_law :
